@@ -26,6 +26,11 @@ HIST_RULE = ("hist driver: seeded random histories (login, proxied request with 
 
 MANAGER_SECTIONS = ['Manager/' + n for n in ('create', 'delete', 'deleteForExternalID', 'getOrRefresh', 'refresh', 'deleteForKey', 'update', 'acquireLock', 'readerGet', 'getForTicket', 'redisRead', 'redisWrite', 'redisUpdate', 'redisDelete', 'redisMakeLock', 'memoryUpdate', 'memoryMakeLock', 'redisLockAcquire', 'redisLockRelease')] + \
     ['pkg/session/session_manager.go', 'pkg/session/session_reader.go', 'pkg/session/store_redis.go', 'pkg/session/store_memory.go', 'pkg/session/lock.go']
+HANDLER_SECTIONS = ['Handlers/' + n for n in ('getSession', 'logout', 'logoutLocal', 'logoutCallback', 'logoutFrontChannel', 'sessionInfo', 'sessionRefresh', 'sessionForwardAuth', 'handleGetSessionError', 'loginCallback', 'proxyGetSession', 'proxyHandler', 'getSessionWithValidToken')] + \
+    ['pkg/handler/handler.go', 'pkg/handler/handler_sso_proxy.go', 'pkg/handler/reverseproxy.go']
+HANDLER_TIE = (" Every control-flow path through the real logout / session / reverse-proxy handlers is enumerated from a statement-by-statement translation regenerated on each run (Gen/Handlers) and "
+               "the kernel decides, over ALL paths, what the handler model assumes (Proofs/GenTie/Handlers): success answers only after the lookup-error guard and the delete, cookies cleared with the request's options first, "
+               "the upstream token set only when the validated lookup and the ACR gate passed, and always then.")
 MANAGER_TIE = (" The order lock -> re-read -> re-check -> grant (presenting the RE-READ token) -> write-back -> release, the lock around session creation, the one-command store update (SET XX KEEPTTL) and the error classes "
                "that the model assumes are read off a statement-by-statement translation of session_manager.go / session_reader.go / store_*.go regenerated on every run (Gen/Manager) and decided by the kernel (Proofs/GenTie/C07).")
 SCHED_RULE = ("sched driver: 2-3 concurrent requests on one session (manual refresh, proxied request with refresh due, session info, logout, local logout, front-channel logout, and the callback of a NEW login that the provider gives the same sid = same store key), each on its own replica over one miniredis, "
@@ -40,8 +45,8 @@ def _merge(*ds):
 
 PROPS = {
     'C01': {
-        'proofs': ['Ww.Proofs.C01', 'Ww.Proofs.GenTie.C01'],
-        'gen_sections': ['Meta', 'pkg/session/data.go', 'Dec/acrValidate', 'pkg/openid/acr/acr.go', 'Dec/sessionCanRefresh', 'Dec/sessionShouldRefresh', 'Dec/sessionYieldsToken', 'Dec/acrValidate', 'pkg/session/session.go'],
+        'proofs': ['Ww.Proofs.C01', 'Ww.Proofs.GenTie.C01', 'Ww.Proofs.GenTie.Handlers'],
+        'gen_sections': HANDLER_SECTIONS + ['Meta', 'pkg/session/data.go', 'Dec/acrValidate', 'pkg/openid/acr/acr.go', 'Dec/sessionCanRefresh', 'Dec/sessionShouldRefresh', 'Dec/sessionYieldsToken', 'Dec/acrValidate', 'pkg/session/session.go'],
         'drivers': [{'name': 'hist'}, {'name': 'meta'}],
         'reasons': ['C01.'],
         'class_fields': _merge(META_CLASS, HIST_CLASS),
@@ -50,7 +55,7 @@ PROPS = {
         'level_text': "Proof: soundness (a token reaches the upstream only for a decryptable ticket whose stored session is live, unexpired, of sufficient ACR, and it is that session's current token, "
                       "also right after an automatic refresh), completeness (such a session always gets its token set, replacing client values) and the no-session corollary are Lean theorems about the "
                       "handler model for EVERY cookie/store state, provider answer, configuration and clock value; the time predicates inside are regenerated from data.go on each run; the hand-written "
-                      "handler model is tied to the real handlers by per-step differential histories in all three modes, and the Spec is evaluated on every implementation step.",
+                      "handler model is tied to the real handlers by per-step differential histories in all three modes, and the Spec is evaluated on every implementation step." + HANDLER_TIE,
         'level_note': "Trusted: Lean kernel; AEAD authenticity (a ciphertext that decrypts under a key was produced under it); one clock reading per request; httputil.ReverseProxy header handling "
                       "(exercised with forged / hop-by-hop headers); hand-written model of session_manager/reverseproxy tied only by differential runs.",
         'technique': 'Lean 4 proof over handler model (decision logic) + regenerated time predicates + differential histories',
@@ -95,8 +100,8 @@ PROPS = {
         'assumptions': ["H-JWS"],
     },
     'C05': {
-        'proofs': ['Ww.Proofs.C05', 'Ww.Proofs.GenTie.C07'],
-        'gen_sections': MANAGER_SECTIONS,
+        'proofs': ['Ww.Proofs.C05', 'Ww.Proofs.GenTie.C07', 'Ww.Proofs.GenTie.Handlers'],
+        'gen_sections': HANDLER_SECTIONS + MANAGER_SECTIONS,
         'drivers': [{'name': 'sched'}, {'name': 'hist'}, {'name': 'cook'}, {'name': 'lockwait'}],
         'reasons': ['C05.'],
         'class_fields': _merge(HIST_CLASS, {'sched': ['store', 'procs', 'crash', 'trace', 'statuses', 'exists'], 'jar': ['after', 'status', 'names', 'sso'], 'setcookie': ['op', 'class', 'clear', 'path', 'domain']}),
@@ -105,7 +110,7 @@ PROPS = {
         'rule': SCHED_RULE + " hist driver: every logout variant is followed by a request with the old cookie. cook driver: the jar of an RFC 6265 browser after each logout variant in 8 configurations (ingress with path prefix, SSO domain spellings) - the session cookie must be gone.",
         'level_text': "Proof: in the small-step model (one transition = one store command / lock script / provider call of one process; any number of refreshing, reading and logging-out processes and of new logins landing on the same store key; any schedule; crashes) a deleted "
                       "session entry never becomes readable with the old cookie again (the refresh write-back is update-only-if-present in ONE step, and a new login writes only under the refresh lock, so a write-back cannot land on it), so for every schedule pre ++ [delete of a logout] ++ post nothing the old cookie can read exists at the end and at every later moment; "
-                      "a request that had not reached the provider by then never does. The model is tied to the real handlers step by step by executing explicit schedules on real replicas over one miniredis (pre-hook = scheduling point)." + MANAGER_TIE,
+                      "a request that had not reached the provider by then never does. The model is tied to the real handlers step by step by executing explicit schedules on real replicas over one miniredis (pre-hook = scheduling point)." + MANAGER_TIE + HANDLER_TIE,
         'level_note': "Trusted: Lean kernel; Redis command atomicity and redislock scripts (through miniredis); one store command is one atomic step (goroutine scheduling inside a command is not observable); cookie clearing is C14.",
         'technique': 'Lean 4 inductive invariant over an interleaving model (unbounded processes and schedule length) + deterministic schedule executor on real replicas',
         'trusted': ["Redis/miniredis command semantics (Appendix C)", "H-AEAD"],
@@ -144,8 +149,8 @@ PROPS = {
         'assumptions': ["crash happens at a store-command boundary"],
     },
     'C06': {
-        'proofs': ['Ww.Proofs.C06', 'Ww.Proofs.GenTie.C01'],
-        'gen_sections': ['Meta', 'pkg/session/data.go', 'Dec/sessionCanRefresh', 'Dec/sessionShouldRefresh', 'Dec/sessionYieldsToken', 'Dec/acrValidate', 'pkg/session/session.go'],
+        'proofs': ['Ww.Proofs.C06', 'Ww.Proofs.GenTie.C01', 'Ww.Proofs.GenTie.Handlers'],
+        'gen_sections': HANDLER_SECTIONS + ['Meta', 'pkg/session/data.go', 'Dec/sessionCanRefresh', 'Dec/sessionShouldRefresh', 'Dec/sessionYieldsToken', 'Dec/acrValidate', 'pkg/session/session.go'],
         'drivers': [{'name': 'hist'}, {'name': 'meta'}, {'name': 'lockwait'}],
         'reasons': ['C06.'],
         'class_fields': _merge(META_CLASS, HIST_CLASS),
@@ -153,15 +158,15 @@ PROPS = {
         'rule': HIST_RULE + LOCKWAIT_RULE + "meta driver as for C08 (includes Refresh/WithTimeout/NewMetadata mutators).",
         'level_text': "Proof: Inv (end = creation + max lifetime; timeout = last refresh + inactivity; token never outlives the timeout) is established by login and preserved by every handler step, "
                       "lifted by induction over arbitrary event lists (login/proxy/manual refresh/forward-auth/info/logout/clock movement); accepted => within lifetime and within inactivity timeout; "
-                      "ended => 401 on session endpoints; inactive => readable as inactive, not refreshable; provider never contacted for a dead session. Metadata functions regenerated from data.go.",
+                      "ended => 401 on session endpoints; inactive => readable as inactive, not refreshable; provider never contacted for a dead session. Metadata functions regenerated from data.go." + HANDLER_TIE,
         'level_note': "Trusted: Lean kernel; translator (validated by the synctest grid each run); hand-written handler model tied by differential histories with time shifting; H-CLOCK; store TTL behaviour is C10.",
         'technique': 'Lean 4 inductive invariant over event histories + regenerated metadata functions + differential histories with time shifting',
         'trusted': ["H-CLOCK; time shifting = moving stored timestamps back and fast-forwarding the store (observationally a clock advance)"],
         'assumptions': ["H-CLOCK", "H-AEAD"],
     },
     'C11': {
-        'proofs': ['Ww.Proofs.C11', 'Ww.Proofs.GenTie.C01', 'Ww.Proofs.GenTie.C07'],
-        'gen_sections': MANAGER_SECTIONS + ['Meta', 'Dec/sessionCanRefresh', 'Dec/sessionShouldRefresh', 'Dec/sessionYieldsToken', 'Dec/acrValidate', 'pkg/session/session.go'],
+        'proofs': ['Ww.Proofs.C11', 'Ww.Proofs.GenTie.C01', 'Ww.Proofs.GenTie.C07', 'Ww.Proofs.GenTie.Handlers'],
+        'gen_sections': HANDLER_SECTIONS + MANAGER_SECTIONS + ['Meta', 'Dec/sessionCanRefresh', 'Dec/sessionShouldRefresh', 'Dec/sessionYieldsToken', 'Dec/acrValidate', 'pkg/session/session.go'],
         'drivers': [{'name': 'fault', 'timeout': 1500}, {'name': 'hist'}],
         'reasons': ['C11.'],
         'class_fields': _merge(HIST_CLASS, {'fault': ['handler', 'prestate', 'fpos', 'fkind', 'fcount', 'status', 'upauth'], 'faultdry': ['handler', 'prestate']}),
@@ -171,7 +176,7 @@ PROPS = {
                 "hist driver: provider answers ok/4xx/5xx/garbage along random histories. distinct = (handler, pre-state, position, fault kind, count, outcome).",
         'level_text': "Proof: with an adversarial fault oracle over lookup, lock, re-read, provider answer, write-back and delete, a token is forwarded only if the session was read (or just granted and stored) and validated in this request and is unexpired; "
                       "an expired token is never forwarded whichever fault prevents the refresh; a 4xx from the provider makes proxied requests go on without token and forward-auth / manual refresh answer 401; a logout whose lookup or delete failed "
-                      "never answers success; without faults the faulty handlers equal the ordinary ones. Retries are modelled as 'fails only if the fault outlasts the budget'; real back-off timing is measured, not modelled.",
+                      "never answers success; without faults the faulty handlers equal the ordinary ones. Retries are modelled as 'fails only if the fault outlasts the budget'; real back-off timing is measured, not modelled." + HANDLER_TIE,
         'level_note': "Trusted: Lean kernel; go-retry (Fibonacci 50 ms, 5 s budget) as 'finitely many attempts, success iff one succeeds'; an error from the lock script is not retried (observed, noted in DESIGN); fault = error reply on the replica's connection at a command boundary.",
         'technique': 'Lean 4 proof over the handler model with a fault oracle + fault injection at every store/provider position on real replicas',
         'trusted': ["go-retry contract (Appendix C)", "H-CLOCK"],
@@ -215,8 +220,8 @@ PROPS = {
         'assumptions': ["H-RND"],
     },
     'C14': {
-        'proofs': ['Ww.Proofs.C14', 'Ww.Proofs.GenTie.C14'],
-        'gen_sections': ['Cookies', 'Dec/cookieMake', 'Dec/cookieClear', 'pkg/cookie/cookie.go'],
+        'proofs': ['Ww.Proofs.C14', 'Ww.Proofs.GenTie.C14', 'Ww.Proofs.GenTie.Handlers'],
+        'gen_sections': HANDLER_SECTIONS + ['Cookies', 'Dec/cookieMake', 'Dec/cookieClear', 'pkg/cookie/cookie.go'],
         'drivers': [{'name': 'cook'}],
         'reasons': ['C14.'],
         'class_fields': {'setcookie': ['sso', 'cfgsecure', 'cfgsamesite', 'op', 'class', 'clear', 'domain', 'path', 'secure', 'samesite'], 'jar': ['after', 'status', 'names', 'sso'], 'cookieval14': ['secure', 'samesite', 'hostnames', 'schemes', 'accepted'],
@@ -226,7 +231,7 @@ PROPS = {
                 "five error causes is compared attribute by attribute with the model; the jar of an RFC 6265 browser is inspected after callback and after each logout; distinct = (config, operation, cookie, attributes).",
         'level_text': "Proof: Make/Clear always set HttpOnly and copy Secure/SameSite/Domain/Path; per-mode options (Secure = configured flag, SameSite=None only in SSO mode with that setting, standalone scoped to the ingress path without Domain, "
                       "SSO to the configured domain); insecure cookies only with all-localhost http ingresses (validation); over the REGENERATED call-site table every cookie is set and cleared with one scope expression; jar theorem: after any history "
-                      "of consistently scoped Set-Cookies ending in an accepted clear of n, no cookie named n remains (induction over the history).",
+                      "of consistently scoped Set-Cookies ending in an accepted clear of n, no cookie named n remains (induction over the history)." + HANDLER_TIE,
         'level_note': "Trusted: Lean kernel; call-site extractor (receiver-name heuristic for SetCookie methods, checked: no 'unknown:' entries); net/http cookie serialisation (leading dot dropped) compared by the driver; RFC 6265 browser (H-BROWSER) - the harness jar implements the same rules as the Lean jar. cookie.Make / cookie.Clear are machine-translated from cookie.go on each run and the model's makeCookie / clearCookie are PROVED equal to the translations (Ww.Proofs.GenTie.C14).",
         'technique': 'Lean 4: attribute lemmas, decide over the regenerated cookie call-site table, inductive jar invariant; per-attribute differential of every emitted Set-Cookie',
         'trusted': ["H-BROWSER (RFC 6265)", "net/http SetCookie serialisation"],
